@@ -34,7 +34,9 @@ EXHAUSTIVE = {"quick": False, "thorough": False}
 HDR_SETS = [[], [["X-Custom", "1"]], [["Content-Type", "application/x-custom"], ["x-a", "é"]],
             [["content-length", "5"]], [["Cache-Control", "max-age=3"], ["cache-control", "private"]],
             # Latin-1 text whose bytes happen to be well-formed UTF-8 (UTF-8 text handed over the PEP 3333 way): must travel byte for byte
-            [["X-Title", "Cr\u00c3\u00a8me \u00ce\u00a9"]]]
+            [["X-Title", "Cr\u00c3\u00a8me \u00ce\u00a9"]],
+            # values that begin / end with characters str.strip() removes but HTTP does not (NBSP, NEL), and with plain blanks
+            [["X-Pad", "v\u00a0"], ["X-Nel", "\u0085w\u0085"], ["X-Sp", " both "]]]
 COOKIE_SETS = [[], [["sid", "abc", {}]], [["a", "x y", {"max_age": 10}], ["b", "é;", {"path": "/p", "secure": True}]],
                # text the library must escape itself (C13): a line break at the very end, a CRLF followed by a header, NUL
                # (rendered lines in ascending order: C20 compares header lists sorted and folds repeats in that order)
@@ -114,7 +116,8 @@ def trace_len(recipe):
     return 8
 
 
-CTOR_ALPHA = ["a", "\r", "\n", "\x00", '"', ";", "\u00e9", "\u4e2d", "\x0b", ".bin"]
+# (e + U+0301 and U+212B are not Latin-1 but compose / normalise to Latin-1 characters)
+CTOR_ALPHA = ["a", "\r", "\n", "\x00", '"', ";", "\u00e9", "\u4e2d", "\x0b", ".bin", "e\u0301", "\u212b"]
 
 
 def ctor_cases(tier):
@@ -223,7 +226,8 @@ def impl_ctor(case):
         if hs is None:
             outs.append(["no-start", out])
         else:
-            outs.append(["built", 0 if any(c in (k + v) for k, v in hs for c in "\r\n\x00") else 1])
+            bad = any(c in (k + v) for k, v in hs for c in "\r\n\x00") or any(ord(c) > 255 for k, v in hs for c in k + v)
+            outs.append(["built", 0 if bad else 1])
     if outs[0] != outs[1]:
         return ["differ", outs]
     return outs[0]
@@ -294,7 +298,7 @@ def oracle(case, obs):
         return ("driver-exception-" + str(obs[1]), str(obs))
     if case[0] == "ctor":
         if obs[0] == "built" and obs[1] == 0:
-            return ("file-header-ctl", "a file response named %r was built and emits a header with CR, LF or NUL" % (case[2],))
+            return ("file-header-ctl", "a file response named %r was built and emits a header with CR, LF, NUL or text outside Latin-1" % (case[2],))
         if obs[0] in ("differ", "no-start"):
             return ("file-ctor-" + obs[0], "file response named %r: %r" % (case[2], obs))
         return None
